@@ -67,7 +67,8 @@ theorem parseCmd_help_long (m : Member) {n : Str} (hn : n ≠ []) (hres : resolv
     parseCmd (toCmd m) [.long n] = some (.help (some m.name)) := by
   have hamb : [Tok.long n].any (ambiguousTok (optTable m.params)) = false := by
     simp [ambiguousTok, hres, Resolved.isAmbiguous]
-  simp only [parseCmd, toCmd, hamb]
+  have hsep : sepOk [Tok.long n] = true := rfl
+  simp only [parseCmd, toCmd, hamb, hsep]
   rw [scanOpts_long_cons hn, hres]
   simp [helpOpt]
 
@@ -80,7 +81,7 @@ theorem C16_help_everywhere (ms : List Member) (hwf : wellFormed ms = true) (m :
     ∧ (∀ rest, rest.any Tok.isOther = false → parseLine (commandTable ms) (.long helpName :: rest) = some (.help none)) := by
   have hl := lookupCmd_exposed hwf hm he
   refine ⟨?_, ?_, ?_, ?_⟩
-  · simp [parseLine, Tok.isOther, hw, hl, parseCmd, toCmd, ambiguousTok, scanOpts, findShort, optTable, helpOpt]
+  · simp [parseLine, Tok.isOther, hw, hl, parseCmd, toCmd, ambiguousTok, sepOk, scanOpts, findShort, optTable, helpOpt]
   · have hres : resolveLong (optTable m.params) helpName = .one helpOpt := by
       simp [resolveLong, findLong, optTable, helpOpt]
     have hnot : Tok.isOther (.long helpName) = false := rfl
